@@ -204,6 +204,13 @@ class Obs:
             of the autocorrelation function (default True)
         """
 
+        for kwarg_name in ('S', 'tau_exp', 'N_sigma'):  # a refused request leaves the previous analysis in place
+            if kwarg_name in kwargs:
+                if not isinstance(kwargs.get(kwarg_name), (int, float)):
+                    raise TypeError(kwarg_name + ' is not in proper format.')
+                if kwargs.get(kwarg_name) < 0:
+                    raise ValueError(kwarg_name + ' has to be larger or equal to 0.')
+
         e_content = self.e_content
         self.e_dvalue = {}
         self.e_ddvalue = {}
